@@ -199,7 +199,8 @@ def signals(tier="quick"):
 # ---------------------------------------------------------------------------------------------
 
 def _jobserver_case(args):
-    sc, tokens, opi, choices, sig_at, ninja, vcmd = args
+    sc, tokens, opi, choices, sig_at, ninja, vcmd = args[:7]
+    explicit_j = args[7] if len(args) > 7 else None   # -jN given together with the inherited jobserver: -j wins
     r = rb.Real(sc, ninja, vcmd)
     out = {"scenario": sc["name"], "scenario_json": sc, "opi": opi, "tokens": tokens, "op": sc["ops"][opi]["label"],
            "choices": choices, "signal_at": sig_at, "problems": []}
@@ -210,7 +211,8 @@ def _jobserver_case(args):
         os.write(fd, b"+" * tokens)
         r.setup()
         op = dict(sc["ops"][opi])
-        op["flags"] = [f for f in op["flags"] if not f.startswith("-j")]
+        op["flags"] = [f for f in op["flags"] if not f.startswith("-j")] + (["-j%d" % explicit_j] if explicit_j else [])
+        out["explicit_j"] = explicit_j
         env = {"MAKEFLAGS": " --jobserver-auth=fifo:" + fifo}
         max_running = [0]
         orig = r.started_files
@@ -233,7 +235,12 @@ def _jobserver_case(args):
             out["problems"].append("%d jobserver token(s) in the FIFO after ninja exited (exit %s), %d before" % (left, o["exit"], tokens))
         if o.get("hang"):
             out["problems"].append("ninja waits forever although tokens are available")
-        if o.get("max_running", 0) > tokens + 1:
+        out["max_running"] = o.get("max_running", 0)
+        if explicit_j:
+            if o.get("max_running", 0) > explicit_j:
+                out["problems"].append("%d commands running with an explicit -j%d (jobserver with %d tokens inherited)" % (
+                    o["max_running"], explicit_j, tokens))
+        elif o.get("max_running", 0) > tokens + 1:
             out["problems"].append("%d commands running with %d tokens (+1 implicit)" % (o["max_running"], tokens))
     except Exception as e:  # noqa
         out["problems"].append("exception: %r" % (e,))
@@ -269,10 +276,118 @@ def jobserver(tier="quick"):
                     work.append((s, tokens, opi, [], sig_at, ninja, vcmd))
     if tier == "quick":
         work = work[::2] + [w for w in work[1::2] if w[0]["name"] == "jobserver/start_fails"]
+    # an explicit -j on the command line overrides the inherited jobserver
+    for tokens in (2, 3):
+        for j in (1, 2):
+            for choices in ([], [-2] * 8):
+                work.append((sc, tokens, 0, choices, None, ninja, vcmd, j))
     with multiprocessing.Pool(16) as pool:
         res = pool.map(_jobserver_case, work, chunksize=1)
     return {"cases": len(res), "problems": [r for r in res if r["problems"]],
+            "max_running_seen": max([r.get("max_running", 0) for r in res] + [0]),
             "sample": [{k: r[k] for k in ("scenario", "tokens", "op", "choices", "signal_at")} for r in res[:3]]}
+
+
+# ---------------------------------------------------------------------------------------------
+# C05: how a command ends, through the real fork/exec/waitpid path (subprocess-posix.cc)
+# ---------------------------------------------------------------------------------------------
+
+FATAL_SIGNALS = {"SIGKILL": 9, "SIGSEGV": 11, "SIGABRT": 6, "SIGBUS": 7, "SIGFPE": 8, "SIGPIPE": 13, "SIGQUIT": 3,
+                 "SIGUSR1": 10, "SIGALRM": 14, "SIGILL": 4}
+
+
+def _ending_case(args):
+    sc, opi, compound, ninja, vcmd = args
+    ops = sc["ops"]
+    op = ops[opi]
+    plain = next(i for i, o in enumerate(ops) if o["op"] == "ninja" and not o.get("faults"))
+    out = {"scenario": sc["name"], "scenario_json": sc, "opi": opi, "op": op["label"], "compound": compound, "problems": []}
+    r = rb.Real(sc, ninja, vcmd, compound=compound)
+    try:
+        r.setup()
+        failing = sorted(op["faults"])
+        o1 = r.run_ninja(op, [-2] * 8)
+        by_out = {st["outs"][0]: st for st in sc["variants"][0]["stmts"]}
+        down = set()
+        changed = True
+        while changed:
+            changed = False
+            for st in sc["variants"][0]["stmts"]:
+                ins = st.get("ex", []) + st.get("im", []) + st.get("oo", [])
+                if st["outs"][0] not in down and any(i in failing or i in down for i in ins):
+                    down.add(st["outs"][0]); changed = True
+        if o1.get("timeout") or o1.get("hang"):
+            out["problems"].append("ninja did not finish (timeout/hang)")
+        if o1["exit"] == 0:
+            out["problems"].append("ninja exited 0 although %s was terminated abnormally" % ",".join(failing))
+        for f in failing:
+            if f in o1["started"] and ("FAILED: " not in o1["out"]):
+                out["problems"].append("the failure of %s is not reported (no FAILED: line)" % f)
+        for d in sorted(down):
+            if d in o1["started"]:
+                out["problems"].append("%s started although its input's producer had failed" % d)
+        if op["k"] == 0:
+            for st in sc["variants"][0]["stmts"]:
+                n = st["outs"][0]
+                if n not in down and n not in failing and n not in o1["started"]:
+                    out["problems"].append("-k0: independent statement %s was not started" % n)
+        o2 = r.run_ninja(ops[plain], [-2] * 8)
+        for f in failing:
+            if f in o1["started"] and f not in o2["started"]:
+                out["problems"].append("the next build did not retry %s (recorded as success?)" % f)
+        if o2["exit"] != 0:
+            out["problems"].append("the fault-free build that follows exits %s" % o2["exit"])
+        o3 = r.run_ninja(ops[plain], [])
+        if not o3["no_work"]:
+            out["problems"].append("the build after the repair is not a no-op: started %s" % o3["started"])
+        out["exit"] = o1["exit"]
+        out["obs"] = {"exit": o1["exit"], "started": o1["started"], "out": o1["out"][-400:], "retry_started": o2["started"]}
+    except Exception as e:  # noqa
+        out["problems"].append("exception: %r" % (e,))
+    finally:
+        r.kill_strays()
+        r.close()
+    return out
+
+
+def endings(tier="quick"):
+    ninja, vcmd = rb.build_tools()
+    v = Variant("v0", [Stmt("a", ex=["s"]), Stmt("b", ex=["a"]), Stmt("c", ex=["t"]), Stmt("top", ex=["b", "c"])])
+    ops = [ninja_op(j=2)]
+    sigs = FATAL_SIGNALS if tier != "quick" else {k: FATAL_SIGNALS[k] for k in ("SIGKILL", "SIGSEGV", "SIGABRT", "SIGPIPE")}
+    for name, num in sorted(sigs.items()):
+        for touch in (False, True):
+            for k in (1, 0):
+                ops.append(ninja_op(j=2, k=k, faults={"a": {"dies": num, "touch": touch}},
+                                    label="ninja -j2 -k%d, a dies of %s%s" % (k, name, " after overwriting its output" if touch else "")))
+    for code in ((1, 2, 127, 255) if tier == "quick" else (1, 2, 3, 126, 127, 128, 129, 137, 139, 143, 254, 255)):
+        for k in (1, 0):
+            ops.append(ninja_op(j=2, k=k, faults={"a": {"code": code, "touch": True}}))
+    sc = scenario("endings/chain+indep", "rb", [v], ops=ops, init=[], depth=1)
+    work = [(sc, i, compound, ninja, vcmd) for i in range(1, len(ops)) for compound in ("exec", False, True)]
+    with multiprocessing.Pool(16) as pool:
+        res = pool.map(_ending_case, work, chunksize=1)
+    return {"cases": len(res), "problems": [r for r in res if r["problems"]],
+            "exit_statuses_seen": sorted(set(r.get("exit", -1) for r in res)),
+            "sample": [{k: r[k] for k in ("scenario", "op", "compound", "obs") if k in r} for r in res[:3]]}
+
+
+def c05_process_level(c):
+    r = endings(c.tier)
+    seen = set()
+    for p in r["problems"]:
+        key = (p["op"].split(",")[-1][:30], tuple(sorted(x[:30] for x in p["problems"])))
+        if key in seen:
+            continue
+        seen.add(key)
+        if len(seen) > 6:
+            break
+        c.violation("C05/process-level '%s' (%s): %s" % (p["op"], {"exec": "sh -c 'exec cmd'", True: "sh -c 'cmd && true'", False: "sh -c cmd"}[p["compound"]],
+                                                        "; ".join(p["problems"])),
+                    {"engine": "rb", "kind": "ending", "scenario": p["scenario_json"], "opi": p["opi"], "compound": p["compound"],
+                     "problems": p["problems"], "obs": p.get("obs")})
+    return {"real_command_ending_cases": r["cases"], "real_exit_statuses_seen": r["exit_statuses_seen"],
+            "real_command_ending_samples": r["sample"]}
 
 
 def replay(rj):
@@ -281,10 +396,14 @@ def replay(rj):
     nx = nxcheck.nx_exe()
     seen = 0
     for _ in range(2):
-        if rj["kind"] == "signal":
+        if rj["kind"] == "ending":
+            o = _ending_case((rj["scenario"], rj["opi"], rj["compound"], ninja, vcmd))
+            o.pop("scenario_json", None)
+        elif rj["kind"] == "signal":
             o = _signal_case((rj["scenario"], rj["wait"], rj["signal"], rj["partial"], ninja, vcmd, nx))
         else:
-            o = _jobserver_case((rj["scenario"], rj["tokens"], rj["opi"], rj["choices"], rj["signal_at"], ninja, vcmd))
+            o = _jobserver_case((rj["scenario"], rj["tokens"], rj["opi"], rj["choices"], rj["signal_at"], ninja, vcmd,
+                                 rj.get("explicit_j")))
         print(json.dumps({k: v for k, v in o.items() if k != "scenario"})[:1500])
         if o["problems"]:
             seen += 1
@@ -323,5 +442,6 @@ def c06_process_level(c):
         c.violation("C06/jobserver %s, %d token(s), '%s' choices=%s signal_at=%s: %s" % (
             p["scenario"], p["tokens"], p["op"], p["choices"], p["signal_at"], "; ".join(p["problems"])),
             {"engine": "rb", "kind": "jobserver", "scenario": p["scenario_json"], "tokens": p["tokens"], "opi": p["opi"],
-             "choices": p["choices"], "signal_at": p["signal_at"], "problems": p["problems"]})
-    return {"real_jobserver_cases": r["cases"], "real_jobserver_samples": r["sample"]}
+             "choices": p["choices"], "signal_at": p["signal_at"], "explicit_j": p.get("explicit_j"), "problems": p["problems"]})
+    return {"real_jobserver_cases": r["cases"], "real_jobserver_max_running_seen": r["max_running_seen"],
+            "real_jobserver_samples": r["sample"]}
